@@ -44,7 +44,9 @@ Record save_switches := mkSaveSw {
   ssw_list_eq_origins : bool;    (* val_equal compares the origin names of two empty lists *)
   ssw_float_eq_bits : bool;      (* val_equal compares floats bit for bit (f32 `==` otherwise) *)
   ssw_nonfinite_subst : bool;    (* inf / NaN are written as +-3.4e38 / 0.0 (`null` otherwise) *)
-  ssw_fstart_saved : bool        (* Element.function_start_in_output_stream is written ("fnStart") and read *)
+  ssw_fstart_saved : bool;       (* Element.function_start_in_output_stream is written ("fnStart") and read *)
+  ssw_empty_thread_rejected : bool;   (* Thread::from_json refuses a thread without call stack elements *)
+  ssw_no_threads_rejected : bool      (* CallStack::load_json refuses a call stack without threads *)
 }.
 
 (* ---------- small helpers ---------- *)
@@ -357,6 +359,8 @@ Definition read_thread (o : list (text * json)) : Res thread :=
             | Some l => read_elements l
             | None => Ok []
             end;
+  do _ <- (if ssw_empty_thread_rejected sw && is_nil els
+           then bad_json "Thread without call stack elements" else Ok tt);
   do prev <- match obind (oget o "previousContentObject") j_as_str with
              | Some p => pointer_at_path root (path_parse (Some p))
              | None => Ok ptr_null
@@ -390,6 +394,8 @@ Definition load_callstack (cs : callstack) (o : list (text * json)) : Res unit *
           let cs1 := cs0 <| cs_threads := ts |> in
           match r with
           | Ok _ =>
+              if ssw_no_threads_rejected sw && is_nil ts
+              then (Err BadJson (T "Call stack without threads"), cs1) else
               match (do jc <- ssite_res S_cs_counter_get (oget o "threadCounter");
                      ssite_res S_cs_counter_i64 (j_as_i64 jc)) with
               | Ok n => (Ok tt, cs1 <| cs_counter := Z.to_N (to_u64 n) |>)
@@ -625,9 +631,10 @@ End Save.
 (* ---------- the instances for the source as it is now ---------- *)
 Definition save_switches_now : save_switches :=
   mkSaveSw choice_invisible_written choice_invisible_read list_origins_written list_equal_origins
-           float_equal_bits nonfinite_substituted function_start_saved.
+           float_equal_bits nonfinite_substituted function_start_saved
+           empty_thread_rejected no_threads_rejected.
 (* the format after the three repairs (pending/save-{1,2}.patch) *)
-Definition save_switches_repaired : save_switches := mkSaveSw true true true true true true true.
+Definition save_switches_repaired : save_switches := mkSaveSw true true true true true true true true true.
 
 Definition write_state_now : world -> Res json := write_state ssite_panics save_switches_now.
 Definition load_state_now : world -> json -> out unit * world := load_state ssite_panics save_switches_now.
